@@ -12,7 +12,7 @@ LEVEL = 'proof'
 RULE = ('exhaustive over operand shapes of rank 1..R with extents 1..E (quick R=3,E=3 plus all rank-4 shapes with extents 1..2; thorough R=4,E=4, results capped in size and '
         'sub-sampled by a fixed stride where the pair space explodes): every NumPy-accepted pair for matmul (both implementations), dot, inner, '
         'outer, vecdot, kron; tensordot with every integer axes 0..min(dim) and every explicit ordered axis pairing (plus negative spellings); '
-        'trace over every axis pair (positive and negative spelling) and every offset with a non-empty diagonal; index::shape_matmul on ALL pairs '
+        'trace over every axis pair (positive and negative spelling) and every offset, negative ones included, with a non-empty diagonal (plus a bounded sample of empty diagonals); index::shape_matmul on ALL pairs '
         '(accepted or not). Integer data (two data sets) so sums are exact and a wrong pairing changes the value. '
         'non-trivial = some contraction / product over an extent > 1')
 EXHAUSTIVE = {'quick': True, 'thorough': False}
@@ -35,11 +35,11 @@ ASSUMPTIONS = [
 ]
 PARTIAL = [
     'matmul_elem_eq_sum covers view::matmul for operand ranks >= 2 only: with a 1-d operand the unchanged view throws / is undefined (known finding matmul.v1-1d-operand, matmul_v1_1d_counterexample); matmulv2_eq_def covers all ranks >= 1',
-    'trace_eq_def covers 0 <= offset < extent(axis2) (non-empty diagonal); negative offsets are a known finding (trace_negative_offset_counterexample), empty diagonals crash in the reducer (known finding trace.empty-diagonal, no model)',
+    'trace_eq_def covers every offset with a non-empty diagonal (-extent(axis1) < offset < extent(axis2), repaired index::diagonal); empty diagonals still fail in the reduction over a zero-length axis (known finding trace.empty-diagonal, no model)',
 ]
 MANIFEST = dict(
-    text='Proof: 19 Lean theorems over a symbolic term-list model (for every destination index the ordered list of (lhs index, rhs index) products a routine sums): index::shape_matmul = NumPy rule on all pairs (isSome iff accepted); view::matmul (ranks >= 2) and view::matmulv2 (all ranks >= 1, batch broadcasting, 1-d promotion) sum exactly a[..,i,k]*b[..,k,j], k in order; dot, inner, outer, vecdot, tensordot (integer and explicit axes, negative spellings), kron (incl. the closed form of kron_dst_transpose for all ranks), trace(offset >= 0) equal their NumPy definitions for every rank/extent. Tied to the C++ on every run by a differential run of all eight routines (element access and eval) + pipeline shape helpers against the model and against NumPy.',
-    note='Lean kernel + propext/Classical.choice/Quot.sound; hand-written model (view combinators reshape/tile/transpose/broadcast-multiply/sum mirrored from the headers), fidelity rests on the correspondence run; broadcast_to index map taken in per-axis form (C06); dynamic-shape arrays only (static/bounded kinds in C09/C11); 3 genuine defects of the unchanged tree are known findings (view::matmul with a 1-d operand, trace/diagonal with negative offset, trace over an empty diagonal).',
+    text='Proof: 18 Lean theorems over a symbolic term-list model (for every destination index the ordered list of (lhs index, rhs index) products a routine sums): index::shape_matmul = NumPy rule on all pairs (isSome iff accepted); view::matmul (ranks >= 2) and view::matmulv2 (all ranks >= 1, batch broadcasting, 1-d promotion) sum exactly a[..,i,k]*b[..,k,j], k in order; dot, inner, outer, vecdot, tensordot (integer and explicit axes, negative spellings), kron (incl. the closed form of kron_dst_transpose for all ranks), trace (offsets of either sign, non-empty diagonal) equal their NumPy definitions for every rank/extent. Tied to the C++ on every run by a differential run of all eight routines (element access and eval) + pipeline shape helpers against the model and against NumPy.',
+    note='Lean kernel + propext/Classical.choice/Quot.sound; hand-written model (view combinators reshape/tile/transpose/broadcast-multiply/sum mirrored from the headers), fidelity rests on the correspondence run; broadcast_to index map taken in per-axis form (C06); dynamic-shape arrays only (static/bounded kinds in C09/C11); 2 genuine defects remain known findings (view::matmul with a 1-d operand, trace over an empty diagonal); the negative-offset defect of index::diagonal is repaired in /repo and modelled as repaired.',
     technique='Lean 4 proofs over symbolic term lists (which (lhs index, rhs index) pairs are summed, in order) for every rank/extent + differential correspondence against the real views (element access and eval) + NumPy oracle')
 
 
@@ -95,10 +95,6 @@ def matmul_v1_1d_operand(c):
     return a.get('impl') == 'v1' and (len(_shape(a['a'])) == 1 or len(_shape(a['b'])) == 1)
 
 
-def trace_negative_offset(c):
-    return c.req.startswith('trace ') and int(_args(c)['offset']) < 0
-
-
 def trace_empty_diagonal(c):
     if not c.req.startswith('trace '):
         return False
@@ -106,12 +102,11 @@ def trace_empty_diagonal(c):
     s = _shape(a['a'])
     o = int(a['offset'])
     n1, n2 = s[int(a['axis1'])], s[int(a['axis2'])]
-    return o >= 0 and min(n1, n2 - o) <= 0
+    return min(n1 + min(o, 0), n2 - max(o, 0)) <= 0
 
 
 KNOWN_PREDICATES = {
     'matmul_v1_1d_operand': matmul_v1_1d_operand,
-    'trace_negative_offset': trace_negative_offset,
     'trace_empty_diagonal': trace_empty_diagonal,
 }
 
@@ -130,6 +125,13 @@ def stride_pick(seq, keep):
 
 
 def gen(tier, rng):
+    # the Lean driver serves these ops under the prefix `c16.` (op names like `outer`, `dot` also exist in other drivers)
+    for c in _gen(tier, rng):
+        c.mreq = 'c16.' + c.req
+        yield c
+
+
+def _gen(tier, rng):
     quick = tier == 'quick'
     R, E = (3, 3) if quick else (4, 4)
     S = list(shapes(R, E, min_rank=1))
@@ -268,7 +270,7 @@ def gen(tier, rng):
         tags = ['trace', 'offset<0' if neg else ('offset>0' if off > 0 else 'offset=0')] + (['empty-diagonal'] if empty else []) + (['negative-axis'] if k % 4 in (0, 2) else [])
         # empty diagonal: reduce over nothing (SIGFPE in the harness) — no model, NumPy (0) judges
         yield Case('trace a=%s offset=%d axis1=%d axis2=%d data=%s' % (fmt(s), off, x1, x2, m), 'h_c16_td', oracle=orc,
-                   dom=not (neg or empty), model=not empty, nontrivial=(min(n1, n2) > 1), tags=tags)
+                   dom=not empty, model=not empty, nontrivial=(min(n1, n2) > 1), tags=tags)
 
     # ---- seeded random larger cases (extents up to 7, rank up to 4), every routine ----
     yield from random_cases(rng, 60 if quick else 600, cap if quick else 4000)
@@ -353,10 +355,10 @@ def random_cases(rng, n, cap):
         r = np_try(lambda: np.tensordot(mk(a, m, 0), mk(b, m, 1), nn))
         if ok(r) and len(b) >= 1:
             yield Case('tensordot a=%s b=%s axes=%d data=%s' % (fmt(a), fmt(b), nn, m), 'h_c16_td', oracle=show(r), tags=['tensordot', 'int-axes', 'random', 'n=%d' % nn])
-        # trace, non-empty diagonal, offset >= 0
+        # trace, non-empty diagonal, offsets of both signs
         a = rshape(2, 4, 6)
         a1, a2 = rng.sample(range(len(a)), 2)
-        off = rng.randint(0, a[a2] - 1)
+        off = rng.randint(-(a[a1] - 1), a[a2] - 1)
         x1 = a1 - len(a) if rng.random() < 0.3 else a1
         x2 = a2 - len(a) if rng.random() < 0.3 else a2
         r = np.trace(mk(a, m, 0), off, x1, x2)
